@@ -631,7 +631,12 @@ def run(out, ctx):
                 continue
             for b, (mm, mc, _, _) in els.items():
                 compare(out, case, set(flags), got[b], mm, mc, b, prior[ci][b][0::2])
-    out.tested_not_proved = ["agreement of torch/linear_operator numerics (Cholesky, CG, Lanczos) with exact algebra"]
+    out.tested_not_proved = ["agreement of torch/linear_operator numerics (Cholesky, CG, Lanczos) with exact algebra",
+                             "which solver tolerance is in force when a train-only cache is filled (eval_cg_tolerance inside "
+                             "ExactGP.__call__, cg_tolerance left at its default): tested on the n_train 13..16 problems, where "
+                             "linear_cg consults its tolerance",
+                             "set_train_data / earlier predictions leave nothing behind that the compared prediction uses "
+                             "(proved for the cache state machine in C03; here tested on values)"]
 
 
 def replay(path):
